@@ -47,6 +47,8 @@ func execCase(c *wire.Case) (res *wire.Result) {
 		opHist(c, res)
 	case "conc":
 		opConc(c, res)
+	case "session":
+		opSession(c, res)
 	default:
 		res.Panic = &wire.PanicInfo{Msg: "unknown op " + c.Op}
 	}
@@ -699,4 +701,45 @@ func opConc(c *wire.Case, res *wire.Result) {
 		}
 	}
 	_ = strings.TrimSpace
+}
+
+// opSession: a sequence of file rewrites and RunFiles calls on the same paths within this one process.
+func opSession(c *wire.Case, res *wire.Result) {
+	for _, st := range c.Steps {
+		sr := wire.StepResult{Contents: map[string][]byte{}}
+		for name, content := range st.Write {
+			if err := os.WriteFile(filepath.Join(c.Dir, name), content, 0o644); err != nil {
+				sr.CompileErr = "harness: " + err.Error()
+			}
+		}
+		if len(st.Src) > 0 {
+			v, err := libvore.Compile(string(st.Src))
+			if err != nil {
+				sr.CompileErr = err.Error()
+			} else {
+				var paths []string
+				for _, n := range st.Files {
+					paths = append(paths, filepath.Join(c.Dir, n))
+				}
+				func() {
+					defer func() {
+						if r := recover(); r != nil {
+							sr.Panic = panicInfo(r)
+						}
+					}()
+					ms := v.RunFiles(paths, parseMode(st.Mode), false)
+					sr.NMatches = len(ms)
+				}()
+			}
+		}
+		ents, _ := os.ReadDir(c.Dir)
+		for _, e := range ents {
+			if e.Type().IsRegular() {
+				if b, err := os.ReadFile(filepath.Join(c.Dir, e.Name())); err == nil {
+					sr.Contents[e.Name()] = b
+				}
+			}
+		}
+		res.StepResults = append(res.StepResults, sr)
+	}
 }
